@@ -10,7 +10,11 @@ compared).  The independent oracle checks the property text on the real objects:
 relations, supplied values read back, derivable <=> readable (closure of the documented directions), failures are
 AttributeError, fast, and without an internal RecursionError (Hook.__get__ is watched while the harness runs), round trips.
 All of it also on objects that carry a SIDE quantity (a hook that is no member of a group but usually defaults to one,
-given explicitly / provided by a subclass hook / read first; see `_side_variants`).
+given explicitly / provided by a subclass hook / read first; see `_side_variants`), on objects whose LINKED objects (the
+roll of a pass, the pass of a roll, the in-profile) have been read before, and on objects that carry a hook given
+explicitly as None (= not supplied, for every hook the core does not test for presence).  The unit group on roll passes
+includes the pass velocity taken from the roll (neutral plane given as point / angle / not at all), with the relation to
+the roll's working velocity and the round trip over a fresh pass.
 """
 import itertools
 import math
@@ -130,7 +134,16 @@ RULE = ("every group (unit length/duration/velocity; roll radius/diameter; rotat
         "at a time, (a) given explicitly with default x random factor, (b) provided by a hook function of an own subclass, "
         "(c) read before the members - as is every other modelled hook of the class; all subsets x all orders for pairs and, in "
         "the thorough tier, for (a); otherwise 2 (c: 1) random orders per subset. Members are re-drawn consistently with a "
-        "side value that enters their relations (working radius, exit angle, usable width).")
+        "side value that enters their relations (working radius, exit angle, usable width). "
+        "Linked objects: every float valued / modelled hook of the hook hosts the translated implementations look at "
+        "(roll of a pass, pass of a roll, in-profile; found through the generated tables) is read before the members "
+        "(mode c). Given as None: every member, every other modelled hook, every side quantity and every such hook of a "
+        "linked object is, one at a time, given explicitly as None (all orders for members of groups of <= 3, else 6; 1 "
+        "otherwise), except names the core tests for presence (has_set / has_cached / has_set_or_cached with a literal "
+        "name anywhere below pyroll/core) and names the world itself supplies; the members must read what they read "
+        "without it and every clause applies. Roll passes: unit group with the roll's neutral plane given as neutral "
+        "point / neutral angle / not at all, relation velocity = roll.working_velocity * cos(roll.neutral_angle), "
+        "round trip of the derived pass velocity over a fresh pass to the roll's rotational frequency.")
 ASSUMPTIONS = [
     "IEEE rounding: consistency and round trips are theorems over the reals; on floats they are checked with rtol 1e-9",
     "hook implementation bodies outside the translatable subset (length_from_roll_pass_positions, "
@@ -139,6 +152,12 @@ ASSUMPTIONS = [
     "quantities living on other objects (in_profile.velocity, groove.groove_factor, roll_pass.velocity, usable_width, ...) "
     "are parameters: availability measured on a twin object, value symbolic",
     "the interpreter is tied to hooks.py by the sampled differential runs only (K); hooks.py itself is the subject of C01/C02/C07",
+    "a hook given explicitly as None counts as not supplied (Hook.__get__ skips it); no demand is made for names the core "
+    "tests for presence (has_set / has_cached / has_set_or_cached): there a None is 'explicitly set' by the documented "
+    "meaning of these tests (observed: Roll(nominal_radius=None, nominal_diameter=None) recurses to the recursion limit)",
+    "presence (set / cached / computable) of quantities on linked objects is measured once per scenario, after a first read "
+    "on the linked object if the scenario has one; the interpreter does not follow changes of a linked object's cache "
+    "during the reads",
 ]
 
 GROUPS = {
@@ -210,6 +229,21 @@ def _side_class(base, name):
     return _SIDE_CLASSES[key]
 
 
+def _getpath(obj, path):
+    """getattr along a `.`-path below the object under test (`roll.neutral_angle`: a hook of a LINKED object)"""
+    for part in path.split("."):
+        obj = getattr(obj, part)
+    return obj
+
+
+def _owner(obj, path):
+    """(owner object, last name) of a `.`-path below `obj`"""
+    parts = path.split(".")
+    for part in parts[:-1]:
+        obj = getattr(obj, part)
+    return obj, parts[-1]
+
+
 def _apply_side(obj, aux):
     if not aux:
         return
@@ -218,6 +252,57 @@ def _apply_side(obj, aux):
     elif aux["mode"] == "hook":
         obj.__dict__["_c16_side_value"] = aux["value"]
         obj.__class__ = _side_class(type(obj), aux["name"])
+    elif aux["mode"] == "none":
+        owner, last = _owner(obj, aux["name"])
+        setattr(owner, last, None)                        # `Roll(..., working_velocity=None)`: in `__dict__`, holding None
+
+
+def _given(o, name):
+    """explicitly supplied WITH A VALUE: `Hook.__get__` skips a `None` in `__dict__` (= not supplied)"""
+    return o.has_set(name) and o.__dict__[name] is not None
+
+
+_PRESENCE = {}
+
+
+def _presence_tested():
+    """names of the hooks the core tests for PRESENCE somewhere (`has_set` / `has_cached` / `has_set_or_cached` with a
+    literal name, any file below pyroll/core except hooks.py itself).  By the documented meaning of these tests a hook
+    given as `None` is "explicitly set" for them, so the property makes no demand on objects that carry a `None` under such
+    a name; every other hook given as `None` is, by `Hook.__get__`, simply not supplied."""
+    if gen.REPO not in _PRESENCE:
+        import ast
+        names = set()
+        root = os.path.join(gen.REPO, "pyroll", "core")
+        for d, _, files in os.walk(root):
+            for f in files:
+                if not f.endswith(".py") or os.path.join(d, f) == os.path.join(root, "hooks.py"):
+                    continue
+                try:
+                    tree = ast.parse(open(os.path.join(d, f)).read())
+                except SyntaxError:
+                    continue
+                for n in ast.walk(tree):
+                    if (isinstance(n, ast.Call) and isinstance(n.func, ast.Attribute)
+                            and n.func.attr in ("has_set", "has_cached", "has_set_or_cached") and n.args
+                            and isinstance(n.args[0], ast.Constant) and isinstance(n.args[0].value, str)):
+                        names.add(n.args[0].value)
+        _PRESENCE[gen.REPO] = names
+    return _PRESENCE[gen.REPO]
+
+
+def _linked(obj, table, hooks):
+    """{name: object}: the hook hosts LINKED to the object under test that the translated implementations of its class
+    look at (`self.roll.…`, `self.roll_pass.…`, `self.in_profile.…`) - found through the generated table, not listed"""
+    from pyroll.core.hooks import HookHost
+    out = {}
+    for o in _paths(table, hooks)[1]:
+        if "." in o:
+            continue
+        r = _safe(lambda: getattr(obj, o))
+        if r[0] == "V" and isinstance(r[1], HookHost) and r[1] is not obj:
+            out[o] = r[1]
+    return out
 
 
 def _hook_names(obj):
@@ -250,15 +335,36 @@ def _is_float(r):
     return r[0] == "V" and isinstance(r[1], float) and math.isfinite(r[1])
 
 
+_LINKED_NAMES = {}
+
+
+def _linked_candidates(world, vals, tables):
+    """[`link.hook`]: the hooks of the hook hosts linked to the object under test (`_linked`) that are float valued on
+    the fully supplied object or belong to a modelled class table / a group; found once per world"""
+    if world.name not in _LINKED_NAMES:
+        modelled = ALL_MEMBERS | {h for c in CLASSES.values() for h in c[2]}
+        out = []
+        ref, keep = world.build({m: vals[m] for m in world.members}, vals)
+        for link, lo in _linked(ref, tables[world.cls], CLASSES[world.cls][2]).items():
+            for n in _hook_names(lo):
+                if n in modelled or _is_float(_safe(lambda: getattr(lo, n))):
+                    out.append(link + "." + n)
+        _LINKED_NAMES[world.name] = out
+    return _LINKED_NAMES[world.name]
+
+
 class World:
     """one class in one situation.  `build(sup)` returns (fresh object, keep-alive list); `values(rng)` a consistent
     assignment of all members (+ auxiliaries used by build); `known(twin)` the oracle's list of external facts;
     `rules` the directions the core documents; `relations(obj, got)` yields (name, lhs, rhs)."""
 
-    def __init__(self, name, cls, group, values, build, known, rules, relations):
+    def __init__(self, name, cls, group, values, build, known, rules, relations, cross=None):
         self.name, self.cls, self.group = name, cls, group
         self.members = GROUPS[group]
         self.values, self._build, self._known, self.rules, self.relations = values, build, known, rules, relations
+        # cross(got, sup_names, vals) -> [(derived member, what is read back on a fresh LINKED pair, observed, original)]:
+        # round trips whose way back leads over another object (pass velocity -> roll of a fresh pass)
+        self.cross = cross
 
     def build(self, sup, vals):
         """fresh object under test (+ keep-alive list); a side value `vals["@aux"]` (see `_apply_side`) is put on it"""
@@ -337,28 +443,33 @@ def _worlds():
     W.append(mk_transport("CoolingPipe", "novel", "located"))
 
     # ---- unit group on roll passes ---------------------------------------------------------------------------------
-    def mk_pass_unit(cls_name, with_rf):
+    def mk_pass_unit(cls_name, with_rf, neutral="none"):
+        g3 = dict(r1=3e-3, r2=12.5e-3, depth=5e-3, pad_angle=30)
+
+        def groove():
+            return _groove(pc) if cls_name == "TwoRollPass" else pc.RoundGroove(**g3)
+
         def values(rng, aux=None):
             R, rf, L = rng.uniform(0.1, 0.4), _logu(rng), rng.uniform(0.01, 0.05)
-            gf = _groove(pc).groove_factor
-            v = rf * (R - gf) * 2 * math.pi
-            return {"velocity": v, "length": L, "duration": L / v, "R": R, "rf": rf}
+            wr = R - groove().groove_factor
+            a = rng.uniform(0.02, 0.3)
+            # the pass velocity is the horizontal component of the working velocity in the neutral plane (exit plane,
+            # exit_point = 0, when the roll has no neutral plane)
+            v = rf * wr * 2 * math.pi * (math.cos(a) if neutral != "none" else 1.0)
+            return {"velocity": v, "length": L, "duration": L / v, "R": R, "rf": rf, "wr": wr,
+                    "neutral_angle": a, "neutral_point": math.sin(a) * wr}
+
+        def mk(sup, vals, rf, pass_kw):
+            kw = {"rotational_frequency": vals["rf"]} if rf else {}
+            if neutral != "none":
+                kw[neutral] = vals[neutral]
+            roll = pc.Roll(groove=groove(), nominal_radius=vals["R"], **kw)
+            if cls_name == "TwoRollPass":
+                return pc.TwoRollPass(roll=roll, gap=2e-3, entry_point=-vals["length"], **pass_kw, **sup)
+            return pc.ThreeRollPass(roll=roll, inscribed_circle_diameter=22e-3, entry_point=-vals["length"], **pass_kw, **sup)
 
         def build(sup, vals):
-            kw = {"rotational_frequency": vals["rf"]} if with_rf else {}
-            roll = pc.Roll(groove=_groove(pc), nominal_radius=vals["R"], **kw)
-            if cls_name == "TwoRollPass":
-                return pc.TwoRollPass(roll=roll, gap=2e-3, entry_point=-vals["length"], **sup), []
-            g3 = pc.RoundGroove(r1=3e-3, r2=12.5e-3, depth=5e-3, pad_angle=30)
-            roll = pc.Roll(groove=g3, nominal_radius=vals["R"], **kw)
-            return pc.ThreeRollPass(roll=roll, inscribed_circle_diameter=22e-3, entry_point=-vals["length"], **sup), []
-
-        def values3(rng, aux=None):
-            v = values(rng)
-            gf = pc.RoundGroove(r1=3e-3, r2=12.5e-3, depth=5e-3, pad_angle=30).groove_factor
-            v["velocity"] = v["rf"] * (v["R"] - gf) * 2 * math.pi
-            v["duration"] = v["length"] / v["velocity"]
-            return v
+            return mk(sup, vals, with_rf, {}), []
 
         def known(rp):
             k = {"entry_point", "exit_point"}
@@ -367,10 +478,37 @@ def _worlds():
             return k
         rules = [("length", ["entry_point", "exit_point"]), ("duration", ["length", "velocity"]),
                  ("velocity", ["roll.working_velocity"])]
-        return World(f"{cls_name}/unit/{'rf' if with_rf else 'norf'}", cls_name, "unit",
-                     values if cls_name == "TwoRollPass" else values3, build, known, rules, unit_rel)
+
+        def rel(obj, got):
+            yield from unit_rel(obj, got)
+            # pass velocity <-> working velocity of the roll (mechanism roll_pass/hookimpls/roll.py: working_velocity =
+            # pass velocity / cos(neutral angle)): the two directions describe the same situation.  Quantities as the
+            # objects report them; without a neutral plane the exit plane counts, stated here for exit_point = 0 only
+            wv = _safe(lambda: float(obj.roll.working_velocity))
+            if "velocity" in got and wv[0] == "V":
+                na = _safe(lambda: float(obj.roll.neutral_angle))
+                if na[0] == "V":
+                    yield ("velocity=roll.working_velocity*cos(roll.neutral_angle)", got["velocity"], wv[1] * math.cos(na[1]))
+                elif _safe(lambda: float(obj.exit_point)) == ("V", 0.0):
+                    yield ("velocity=roll.working_velocity", got["velocity"], wv[1])
+
+        def cross(got, sup_names, vals):
+            # the derived pass velocity supplied to a fresh pass whose roll has no rotational frequency of its own
+            # reproduces the rotational frequency / surface velocity it was derived from
+            if not with_rf or "velocity" in sup_names or "velocity" not in got:
+                return
+            rp2 = mk({}, vals, False, {"velocity": got["velocity"]})
+            for (n, orig) in (("rotational_frequency", vals["rf"]), ("surface_velocity", vals["rf"] * vals["R"] * 2 * math.pi)):
+                r = _read(rp2.roll, n)
+                if r[0] == "V":
+                    yield ("velocity", "roll." + n, r[1], orig)
+        return World(f"{cls_name}/unit/{'rf' if with_rf else 'norf'}" + ("" if neutral == "none" else "/" + neutral),
+                     cls_name, "unit", values, build, known, rules, rel, cross=cross)
 
     W += [mk_pass_unit("TwoRollPass", True), mk_pass_unit("TwoRollPass", False), mk_pass_unit("ThreeRollPass", True)]
+    # ... with the neutral plane given on the roll, as neutral point or as neutral angle
+    W += [mk_pass_unit("TwoRollPass", True, "neutral_point"), mk_pass_unit("TwoRollPass", True, "neutral_angle"),
+          mk_pass_unit("ThreeRollPass", True, "neutral_point"), mk_pass_unit("TwoRollPass", False, "neutral_point")]
 
     # ---- roll radius / diameter ------------------------------------------------------------------------------------
     def rad_values(rng, aux=None):
@@ -423,7 +561,7 @@ def _worlds():
             kw = {"nominal_radius": vals["R"]} if radius == "nr" else {"nominal_diameter": 2 * vals["R"]} if radius == "nd" else {}
             return pc.Roll(groove=_groove(pc), **kw, **sup), []
         return World(f"Roll/vel/{radius}", "Roll", "rollvel", vel_values, build,
-                     lambda o: {n for n in ("nominal_radius", "nominal_diameter") if o.has_set(n)}, vel_rules, vel_rel)
+                     lambda o: {n for n in ("nominal_radius", "nominal_diameter") if _given(o, n)}, vel_rules, vel_rel)
     W += [mk_roll_vel(r) for r in ("nr", "nd", "none")]
 
     def mk_passroll_vel(pass_vel, neutral, exit_point=False):
@@ -445,8 +583,8 @@ def _worlds():
             return mk_pass_roll(sup, vals, rkw, pkw)
 
         def known(o):
-            k = {n for n in ("nominal_radius", "nominal_diameter", "neutral_angle", "neutral_point") if o.has_set(n)}
-            if o.roll_pass.has_set("velocity"):
+            k = {n for n in ("nominal_radius", "nominal_diameter", "neutral_angle", "neutral_point") if _given(o, n)}
+            if _given(o.roll_pass, "velocity"):
                 k.add("roll_pass.velocity")
             return k
         rules = vel_rules + [("working_velocity", ["roll_pass.velocity", "working_radius"])]
@@ -467,7 +605,7 @@ def _worlds():
         W.append(World(f"PassRoll/neutral/{radius}", "PassRoll", "neutral", vel_values,
                        (lambda radius: lambda sup, vals: mk_pass_roll(
                            sup, vals, {"nominal_radius": vals["R"]} if radius == "nr" else {}))(radius),
-                       lambda o: {n for n in ("nominal_radius",) if o.has_set(n)}, neu_rules, neu_rel))
+                       lambda o: {n for n in ("nominal_radius",) if _given(o, n)}, neu_rules, neu_rel))
 
     # ---- cooling pipe ------------------------------------------------------------------------------------------------------
     def pipe_values(rng, aux=None):
@@ -599,14 +737,23 @@ def _measure_ext(pc, cname, table, twin, real_funcs):
             ext.append((o, "e" + _kind(r[1])[0]))
         elif r[1] is None:
             ext.append((o, "ea"))                      # any attribute access on None raises AttributeError
+    # presence on the owner as it is NOW (before the measurement itself evaluates anything): explicitly set / cached by an
+    # earlier read (a scenario may read a hook of a linked object first)
+    presence = {}
+    for p in vals:
+        if "." in p:
+            r = _safe(lambda: _owner(twin, p))
+            if r[0] == "V" and hasattr(r[1][0], "has_set"):
+                owner, last = r[1]
+                presence[p] = "s" if owner.has_set(last) else "c" if owner.has_cached(last) else "a"
     for p in vals:
         r = _resolve(twin, p)
         if r[0] == "E":
             ext.append((p, "e" + _kind(r[1])[0]))
             continue
         _, v, owner, last = r
-        is_set = hasattr(owner, "has_set") and owner.has_set(last)
-        ext.append((p, "s" if is_set else "a"))
+        is_set = hasattr(owner, "has_set") and _given(owner, last)
+        ext.append((p, presence.get(p, "s" if is_set else "a")))
         try:
             env[p] = float(v)
         except (TypeError, ValueError):
@@ -704,7 +851,7 @@ def _read(obj, name):
     del _RECURSION[:]
     t0 = time.perf_counter()
     try:
-        v = getattr(obj, name)
+        v = _getpath(obj, name)
         dt = time.perf_counter() - t0
         if _RECURSION:
             return ("E", "value-after-RecursionError", dt, f"RecursionError inside the evaluation of {_RECURSION[0]} "
@@ -772,6 +919,8 @@ def _case_replay(world, sup_names, order, vals):
             "explicit": f"{aux['name']}={aux['value']} is given explicitly on the object (obj.{aux['name']} = value)",
             "hook": f"{aux['name']}={aux['value']} is provided by a hook function of a subclass of the object's class",
             "read-first": f"{aux['name']} is read on the object before the members (getattr, exceptions ignored)",
+            "none": f"{aux['name']} is given explicitly as None (obj.{aux['name']} = None, as by a constructor keyword "
+                    f"{aux['name'].split('.')[-1]}=None): by Hook.__get__ that is 'not supplied'",
         }[aux["mode"]]
         rp["how"] += "  -- w.build puts values['@aux'] on the object; a 'read-first' quantity is read before read_order"
     return rp
@@ -779,7 +928,7 @@ def _case_replay(world, sup_names, order, vals):
 
 def _side_tag(vals):
     aux = vals.get("@aux")
-    return "" if not aux else "/side-read" if aux["mode"] == "read-first" else "/side-value"
+    return "" if not aux else {"read-first": "/side-read", "none": "/given-none"}.get(aux["mode"], "/side-value")
 
 
 def _scenario(ctx, world, vals, funcs, tables, lines, pending, only=None, n_orders=None, record=None, reference=None):
@@ -792,19 +941,35 @@ def _scenario(ctx, world, vals, funcs, tables, lines, pending, only=None, n_orde
     aux = vals.get("@aux")
     tag = _side_tag(vals)
     pre = _pre_reads(vals)
-    side = f" [{aux['name']}" + (f"={aux['value']} {aux['mode']}]" if aux["mode"] != "read-first" else " read first]") if aux else ""
-    # the interpreter knows the class tables only: a hook function of a subclass on a modelled hook, and the read of a
-    # quantity outside the tables, are run on the implementation alone
-    use_model = ctx.model_available and not (aux and (
-        (aux["mode"] == "hook" and aux["name"] in hooks) or (aux["mode"] == "read-first" and aux["name"] not in hooks)))
+    side = "" if not aux else f" [{aux['name']}" + {"read-first": " read first]", "none": " given as None]"}.get(
+        aux["mode"], f"={aux['value']} {aux['mode']}]")
+    linked = bool(aux) and "." in aux["name"]
+    ext_paths = _paths(tables[world.cls], hooks)[0]
+    # the interpreter knows the class tables of ONE instance only: a hook function of a subclass on a modelled hook, the
+    # read of a quantity outside the tables and a None on a linked object are run on the implementation alone
+    use_model0 = ctx.model_available and not (aux and (
+        (aux["mode"] == "hook" and aux["name"] in hooks)
+        or (aux["mode"] == "read-first" and aux["name"] not in hooks and aux["name"] not in ext_paths)
+        or (aux["mode"] == "none" and linked)))
     all_orders = list(itertools.permutations(members))
     for k in range(len(members) + 1):
         for sup_names in itertools.combinations(members, k):
             if only is not None and list(sup_names) != only[0]:
                 continue
+            if aux and aux["mode"] == "none" and aux["name"] in sup_names:
+                continue                      # a member is either supplied or given as None
             sup = {m: vals[m] for m in sup_names}
             twin, keep_t = world.build(sup, vals)
-            pre_set = [h for h in hooks if twin.has_set(h)]
+            use_model = use_model0
+            if linked and aux["mode"] == "read-first":
+                # the externals' presence (cached on the linked object or not) is measured AFTER the first read; the
+                # interpreter can follow when that read touched nothing on the instance under test itself
+                _CALLS["obj"], _CALLS["funcs"], _CALLS["n"] = twin, set(funcs[world.cls].values()), 0
+                _safe(lambda: _getpath(twin, aux["name"]))
+                _CALLS["obj"] = None
+                use_model = use_model and _CALLS["n"] == 0 and not any(n in hooks for n in twin.__cache__)
+            pre_set = [h for h in hooks if _given(twin, h)]
+            none_set = [h for h in hooks if twin.has_set(h) and not _given(twin, h)]
             known = set(pre_set) | world.known(twin, aux)
             expect = _closure(known, world.rules)
             ext = env = None
@@ -864,9 +1029,10 @@ def _scenario(ctx, world, vals, funcs, tables, lines, pending, only=None, n_orde
                     first_got = (got, obj, keep, order)
                 if use_model:
                     set_names = pre_set
-                    lines.append("run %s ext=%s set=%s order=%s env=%s fuel=%d" % (
+                    lines.append("run %s ext=%s set=%s order=%s env=%s fuel=%d none=%s" % (
                         world.cls, ",".join(f"{p}/{s}" for (p, s) in ext) or "-", ",".join(set_names) or "-",
-                        ",".join(pre + list(order)), ",".join(f"{n}={stub.bits(x)}" for n, x in env.items()) or "-", FUEL))
+                        ",".join(pre + list(order)), ",".join(f"{n}={stub.bits(x)}" for n, x in env.items()) or "-", FUEL,
+                        ",".join(none_set) or "-"))
                     pending.append((rp, reads_all, cache))
             # order independence
             for m in members:
@@ -885,15 +1051,18 @@ def _scenario(ctx, world, vals, funcs, tables, lines, pending, only=None, n_orde
                 if record is not None:
                     record.setdefault(tuple(sup_names), {})[m] = (o0, k0, v0)
                 # reading another quantity of the object first does not change what a member reads
+                # ... nor does a hook given as None (= not supplied)
                 ref = (reference or {}).get(tuple(sup_names), {}).get(m)
                 if ref is not None:
                     for (o, k_, v) in obs:
                         if not ((k_ == ref[1]) and (v == ref[2] if k_ == "E" else _close(v, ref[2]))):
-                            ctx.violation(f"{world.group}:order-dependent{tag}", f"{world.name}{side}: with "
+                            none = aux["mode"] == "none"
+                            ctx.violation(f"{world.group}:{'none-is-not-absent' if none else 'order-dependent'}{tag}",
+                                          f"{world.name}{side}: with "
                                           f"{sorted(sup_names) or 'nothing'} supplied {m} reads "
                                           f"{v if k_ == 'V' else 'Error(' + v + ')'} in order {list(o)}, but "
                                           f"{ref[2] if ref[1] == 'V' else 'Error(' + ref[2] + ')'} (order {list(ref[0])}) when "
-                                          f"{aux['name']} has not been read before",
+                                          f"{aux['name']} " + ("is not mentioned at all" if none else "has not been read before"),
                                           dict(_case_replay(world, sup_names, o, vals), reference_order=list(ref[0]),
                                                reference_without_side_read=True))
                             break
@@ -921,6 +1090,16 @@ def _scenario(ctx, world, vals, funcs, tables, lines, pending, only=None, n_orde
                                                how_roundtrip=f"x = obj.{m} after the reads; obj2, keep2 = w.build({{'{m}': x}}, "
                                                              f"dict(values, {m}=x)); obj2.{s_} must equal values['{s_}']"))
                         ctx.count("roundtrip")
+            # ... also when the way back leads over a linked object (pass velocity -> roll of a fresh pass)
+            if first_got is not None and world.cross is not None:
+                got = first_got[0]
+                for (m, back_name, observed, orig) in world.cross(got, sup_names, vals):
+                    if not _close(observed, orig):
+                        ctx.violation(f"{world.group}:roundtrip{tag}", f"{world.name}{side}: {m}={got[m]} was derived "
+                                      f"from {back_name}={orig}; a fresh object given {m} reads {back_name}={observed}",
+                                      dict(_case_replay(world, sup_names, first_got[3], vals),
+                                           cross_roundtrip={"derived": m, "back": back_name}))
+                    ctx.count("roundtrip-linked")
             if len(ctx.samples) < 3 and first_got is not None and sup_names and len(sup_names) < len(members):
                 ctx.sample({"world": world.name, "supplied": sup, "read": first_got[0]})
 
@@ -993,7 +1172,7 @@ def _linked_instances(ctx):
                 break
 
 
-def _side_variants(ctx, world, vals, seed, plain):
+def _side_variants(ctx, world, vals, seed, plain, tables):
     """the scenarios of one world that carry a side quantity: [(values, orders per subset or None = all, reference)]
 
     * every float valued quantity of the object that is not a group member (found on the object itself, not listed by
@@ -1015,10 +1194,28 @@ def _side_variants(ctx, world, vals, seed, plain):
             v2["@aux"] = aux
             out.append((v2, None if (few or (mode == "explicit" and ctx.tier != "quick")) else 2, None))
     first = [h for h in CLASSES[world.cls][2] if h not in world.members] + [n for (n, _) in cands]
-    for name in dict.fromkeys(first):
+    # ... and the hooks of the LINKED objects the implementations look at (the roll of a pass, the pass of a roll, the
+    # in-profile): what has been read (and cached) THERE before must not change what the members read
+    linked = _linked_candidates(world, vals, tables)
+    for name in dict.fromkeys(first + linked):
         v2 = dict(vals)
         v2["@aux"] = {"name": name, "value": None, "mode": "read-first"}
         out.append((v2, None if few else 1, plain))
+    # a hook given explicitly as None (`Roll(..., working_velocity=None)`, the core's own way of saying "not supplied":
+    # `Hook.__get__` skips a None in `__dict__`): every hook of the object (members, other modelled hooks, side quantities)
+    # and of the linked objects, one at a time, except the names the core tests for presence (`_presence_tested`)
+    skip = _presence_tested()
+    bare, keep = world.build({}, vals)
+    for name in dict.fromkeys(list(world.members) + first + linked):
+        if name.split(".")[-1] in skip:
+            continue
+        o = _safe(lambda: _owner(bare, name))
+        if o[0] != "V" or o[1][0].has_set(o[1][1]):
+            continue                          # part of the world's own configuration (the pass roll's neutral point, ...)
+        v2 = dict(vals)
+        v2["@aux"] = {"name": name, "value": None, "mode": "none"}
+        # (a None member shows in few orders only - typically when it is the first one read: all orders)
+        out.append((v2, (None if len(world.members) <= 3 else 6) if name in world.members else 1, plain))
     return out
 
 
@@ -1036,7 +1233,7 @@ def run(ctx):
                 vals = w.values(random.Random(seed), None)
                 plain = {}
                 _scenario(ctx, w, vals, funcs, tables, lines, pending, record=plain)
-                for (vals2, n_orders, reference) in _side_variants(ctx, w, vals, seed, plain):
+                for (vals2, n_orders, reference) in _side_variants(ctx, w, vals, seed, plain, tables):
                     _scenario(ctx, w, vals2, funcs, tables, lines, pending, n_orders=n_orders, reference=reference)
         _linked_instances(ctx)
     if ctx.model_available and lines:
